@@ -710,8 +710,9 @@ namespace xtl
     template <class T>
     inline auto xcomplex<CTR, CTI, B>::operator*=(const T& rhs) noexcept -> disable_xcomplex<T, self_type&>
     {
-        m_real *= rhs;
-        m_imag *= rhs;
+        const T factor(rhs);  // rhs may refer to a part of *this (z *= z.real())
+        m_real *= factor;
+        m_imag *= factor;
         return *this;
     }
 
@@ -719,8 +720,9 @@ namespace xtl
     template <class T>
     inline auto xcomplex<CTR, CTI, B>::operator/=(const T& rhs) noexcept -> disable_xcomplex<T, self_type&>
     {
-        m_real /= rhs;
-        m_imag /= rhs;
+        const T divisor(rhs);  // rhs may refer to a part of *this (z /= z.real())
+        m_real /= divisor;
+        m_imag /= divisor;
         return *this;
     }
 
